@@ -77,7 +77,8 @@ CHECKS = {
               "_need_exponent_sign_bit_check, _get_min_max_exponents and the two constructors (tools/translate/po2gen.py -> coq/gen/Po2Gen.v); "
               "Link/Po2Link.v re-proves that it is the interval of the model for all bits / max_value, and that quadratic_approximation lowers the "
               "maximum to the largest even exponent; the generated functions are evaluated in Coq against the _min_exp/_max_exp the constructors set."
-              " The rounding step is also decided exactly: the harness asks the same TensorFlow kernels for l = log(x')/log 2 on the filtered magnitude and Coq decides exponent = clip(round-half-even l) resp. clip(floor l) (exp_from_log; C03_rnd_exponent_is_nearest_to_the_returned_log_ties_to_even, C03_floor_exponent_is_floor_of_the_returned_log, checker soundness), which reaches the exact ties inside the tolerance band of the relational checker."),
+              " The rounding step is also decided exactly: the harness asks the same TensorFlow kernels for l = log(x')/log 2 on the filtered magnitude and Coq decides exponent = clip(round-half-even l) resp. clip(floor l) (exp_from_log; C03_rnd_exponent_is_nearest_to_the_returned_log_ties_to_even, C03_floor_exponent_is_floor_of_the_returned_log, checker soundness), which reaches the exact ties inside the tolerance band of the relational checker."
+              " Translator po2callgen.py -> coq/gen/Po2CallGen.v + Link/Po2CallLink.v: _clip_power_of_two (epsilon test, max_value clamp, clip to the exponent interval, doubling under quadratic_approximation) with the float logarithm as oracle parameters; with the exact round/floor base-2 logarithm it IS clip_po2 of the model, and for ANY logarithm the exponent stays inside the interval."),
         design_ref="DESIGN.md section 5 C03, section 10, section 10.10",
         note=(TB_COMMON + "float32 log is an oracle: the implementation's exponent must lie between the exact exponents of x(1-2^-18) and "
               "x(1+2^-18); breakpoint shifts below that are invisible. tf.pow(2, integer) assumed exact (any inexactness shows as a mismatch)."),
